@@ -261,6 +261,10 @@ ROLES = {
     "LOAD_KEY": dict(owner=INNER, name="load_key_data", shape=lambda p, f: len(f.inputs) == 2 and short(f.inputs[1]) == "Offset<Piece<Key>>" and short(f.output) == "Result<KT, Error>" and f.impl_self_adt == INNER and f.impl_trait is None),
     "ITER_NEXT": dict(owner=ITERMUT, name="next_piece_offset",
                       shape=lambda p, f: len(f.inputs) == 1 and short(f.output) == "Option<Offset<Piece<Key>>>" and f.impl_self_adt == ITERMUT),
+    # the predecessor search of the re-link code: method or free function (kept out of helper inlining by being a role)
+    "FIND_PREV": dict(owner=INNER, any_owner=True, name="find_prev_key_offset",
+                      shape=lambda p, f: short(f.output) == "Result<Offset<Piece<Key>>, Error>" and f.impl_trait is None
+                      and any(t.endswith("semtype::HashValue") for t in f.inputs) and any(short(t) == "Offset<Piece<Key>>" for t in f.inputs)),
     "ITER_NEW": dict(owner=ITERMUT, name="new",
                      shape=lambda p, f: len(f.inputs) == 1 and short(f.output).startswith("Result<DbXxxIterMut<") and f.impl_self_adt == ITERMUT),
 }
@@ -275,6 +279,8 @@ def resolve(prog, role):
     def in_scope(fn):
         if fn.crate != "abyssiniandb" or fn.kind == "Closure":
             return False
+        if spec.get("any_owner"):
+            return True
         if owner is not None and fn.impl_self_adt != owner:
             return False
         if owner is None and fn.impl_self_adt is not None:
